@@ -193,6 +193,19 @@ static void List_Assign(var self, var obj) {
 }
 
 static void List_Concat(var self, var obj) {
+  
+  /* Concatenated with itself: the items there were when the call began */
+  if (self is obj) {
+    struct List* l = self;
+    size_t n = l->nitems;
+    var item = l->head;
+    for (size_t i = 0; i < n; i++) {
+      List_Push(self, item);
+      item = *List_Next(l, item);
+    }
+    return;
+  }
+  
   foreach (item in obj) {
     List_Push(self, item);
   }
